@@ -26,6 +26,13 @@ PRISTINE = {'ctx_none': True, 'lock_free': True, 'probe_none': True}
 # store:<definition>  build, store() into a scratch directory, read the files
 # late:<definition>   build, other library use, only then write the bytes
 LIB_ROUTES = ('add:', 'deco:', 'store:')
+# touch:<definition>  build (without variants / metadata), then write in place
+#                     to everything the definition and its description hand
+#                     out: sd.metadata, sd.variants, desc.metadata, desc lists
+# hook:<definition>   build, store() with a populate_metadata_func hook that
+#                     writes specs into desc.metadata
+# touchsys            the same writes on the system definitions
+TOUCH_ROUTES = ('touch:', 'hook:')
 
 
 def op_class(op):
@@ -40,6 +47,8 @@ def op_class(op):
         return 'desc-read'
     if op.startswith(LIB_ROUTES):
         return 'def-registration'
+    if op.startswith(TOUCH_ROUTES) or op == 'touchsys':
+        return 'use-of-handed-out-objects'
     if op.startswith('late:'):
         return 'deferred-write'
     if op == 'bare':
@@ -58,7 +67,7 @@ def ref_key(op):
             if key.endswith(suffix):
                 key = key[:-len(suffix)]
         return key
-    if op.startswith(LIB_ROUTES + ('late:',)):
+    if op.startswith(LIB_ROUTES + TOUCH_ROUTES + ('late:',)):
         return op.split(':', 1)[1]
     return None
 
@@ -169,6 +178,10 @@ def selftest():
         ['outside-unit-attached-to-definition']
     assert ref_key('desc:g:ctl:nokeep') == 'g:ctl'
     assert ref_key('desc:g:ctl:bad') == 'g:ctl' and ref_key('bare') is None
+    assert ref_key('touch:g:s1') == 'g:s1' and ref_key('touchsys') is None
+    assert op_class('hook:g:nd') == op_class('touchsys')
+    assert judge_step('touchsys', refs, dict(PRISTINE,
+                                             outcome=['bare', True])) == []
     assert ref_key('add:g:ctl') == 'g:ctl' and ref_key('late:g:p0') == 'g:p0'
     assert ref_key('deco:g:s1') == 'g:s1' and ref_key('store:g:sh1') == 'g:sh1'
     assert [d[0] for d in judge_step('add:g:ctl', refs, dict(
